@@ -4,7 +4,8 @@
    from /repo/src/halmos/solve.py on every run. *)
 From Coq Require Import ZArith List String Bool.
 From HV Require Import Base.Word Base.SmtBV Model.SexpDefs Gen.GenRefine
-  Spec.SmtQuerySpec Model.SmtTextModel Proofs.SmtTextProofs.
+  Spec.SmtQuerySpec Model.SmtTextModel Proofs.SmtTextProofs
+  Model.PathCopyDefs Gen.GenPathCopy Model.PathHeapModel Proofs.PathHeapGen.
 Import ListNotations.
 Open Scope Z_scope.
 
@@ -165,6 +166,125 @@ Theorem C11_slicing_keeps_conditions :
     conditions (extend_path cond p parent) = conditions parent.
 Proof. exact slicing_keeps_conditions. Qed.
 Print Assumptions C11_slicing_keeps_conditions.
+
+(* ---- several Path objects alive at once (the setUp state and every test started on it; a
+   frontier state and every target function / invariant started on it; both sides of every
+   JUMPI): Path.branch / Path.extend_path give the new object its own containers.  The copy
+   modes are regenerated from sevm.py on every run *)
+Theorem C11_path_objects_separate : separate gen_modes = true.
+Proof. exact gen_modes_separate. Qed.
+Print Assumptions C11_path_objects_separate.
+
+(* no interference: for every program over Path objects -- appends, forks, activations,
+   slices, extensions, on any object, in any order, any number of objects forked off /
+   extended from the same parent -- the object-level semantics (containers mutated in
+   place through references) leaves every object in the state that the value-level
+   semantics gives it (conditions, pending, related, var_to_conds, sliced) *)
+Theorem C11_paths_do_not_interfere :
+  forall (cond : Type) (cond_eqb : cond -> cond -> bool) (simp : cond -> cond)
+         (is_true : cond -> bool) (vars : cond -> list Z) ops s0 h,
+    h_run cond cond_eqb simp is_true vars gen_modes (h_init cond s0) ops = Some h ->
+    exists ps, v_run cond cond_eqb simp is_true vars [empty_path cond s0] ops = Some ps /\
+      List.length ps = List.length (o_paths h) /\
+      forall i hp p, nth_error (o_paths h) i = Some hp -> nth_error ps i = Some p ->
+        same_path cond (h_view cond h hp) p.
+Proof. exact paths_do_not_interfere_gen. Qed.
+Print Assumptions C11_paths_do_not_interfere.
+
+(* the query of EVERY Path object asserts exactly the constraints accumulated on that
+   object's own lineage (what its ancestors received before it was forked off / extended
+   from them, then what it received itself): nothing that another path received later, or
+   that a sibling started from the same state received, is in it -- syntactically ... *)
+Theorem C11_every_path_query :
+  forall (cond : Type) (cond_eqb : cond -> cond -> bool) (simp : cond -> cond)
+         (is_true : cond -> bool) (vars : cond -> list Z) (cid : cond -> Z) ops s0 h i cs q,
+    h_run cond cond_eqb simp is_true vars gen_modes (h_init cond s0) ops = Some h ->
+    h_to_smt2 cond cid h i cs = Some q ->
+    map (fun a => match a with QPlain c => c | QTracked _ c => c end) (fst q)
+      = add_all cond cond_eqb simp is_true [] (accumulated cond (nth i (lineages cond ops) []))
+    /\ snd q = map cid (add_all cond cond_eqb simp is_true [] (accumulated cond (nth i (lineages cond ops) []))).
+Proof. exact every_path_query_gen. Qed.
+Print Assumptions C11_every_path_query.
+
+(* ... and semantically (same hypotheses on z3 as C11_query_equals_constraints) *)
+Theorem C11_every_path_query_equals_constraints :
+  forall (cond : Type) (cond_eqb : cond -> cond -> bool) (simp : cond -> cond)
+         (is_true : cond -> bool) (vars : cond -> list Z) (cid : cond -> Z)
+         (env : Type) (sem : env -> cond -> Prop),
+    (forall e c, sem e (simp c) <-> sem e c) ->
+    (forall c, is_true c = true -> forall e, sem e c) ->
+    (forall c d, cond_eqb c d = true -> forall e, sem e c <-> sem e d) ->
+    forall ops s0 h i cs q e,
+    h_run cond cond_eqb simp is_true vars gen_modes (h_init cond s0) ops = Some h ->
+    h_to_smt2 cond cid h i cs = Some q ->
+    ((exists b, Forall (holds sem e b) (dump_asserts cs q))
+     <-> path_constraints_hold sem e (accumulated cond (nth i (lineages cond ops) []))).
+Proof. exact every_path_query_sem_gen. Qed.
+Print Assumptions C11_every_path_query_equals_constraints.
+
+(* ---- conditions vs solver.  The z3 solver of a path (used to prune infeasible branches,
+   never to build the query) holds nothing but what the solvers handed to Path(...) already
+   held and conditions of the path ... *)
+Theorem C11_solver_subset_of_conditions :
+  forall (cond : Type) (cond_eqb : cond -> cond -> bool) (simp : cond -> cond)
+         (is_true : cond -> bool) (vars : cond -> list Z) ops s0 p,
+    run cond cond_eqb simp is_true vars (empty_path cond s0) ops = Some p ->
+    forall c, In c (solver p) -> In c (bases cond s0 ops) \/ In c (map fst (conditions p)).
+Proof. exact solver_subset_of_conditions. Qed.
+Print Assumptions C11_solver_subset_of_conditions.
+
+(* ... all of them, in order, when no state on the way was sliced (regular tests): there
+   Path.solver mirrors Path.conditions; only extensions of sliced states hold less *)
+Theorem C11_solver_holds_all_when_unsliced :
+  forall (cond : Type) (cond_eqb : cond -> cond -> bool) (simp : cond -> cond)
+         (is_true : cond -> bool) (vars : cond -> list Z) ops s0 p,
+    run cond cond_eqb simp is_true vars (empty_path cond s0) ops = Some p ->
+    no_slice cond ops = true ->
+    solver p = (last_base cond s0 ops ++ map fst (conditions p))%list.
+Proof. exact solver_holds_all_when_unsliced. Qed.
+Print Assumptions C11_solver_holds_all_when_unsliced.
+
+(* the solver OBJECTS (shared by a path and its forks, with push / pop scopes): under the
+   exploration discipline of SEVM.run -- appends and forks come from the path running on the
+   solver, a waiting fork is activated when it is the most recent one (LIFO worklist) -- the
+   assertions held by every solver object are exactly the pure model's solver view of the
+   path running on it.  (`sched_run` = None for programs outside the discipline.) *)
+Theorem C11_solver_mirrors_running_path :
+  forall (cond : Type) (cond_eqb : cond -> cond -> bool) (simp : cond -> cond)
+         (is_true : cond -> bool) (vars : cond -> list Z) ops s0 h sc,
+    h_run cond cond_eqb simp is_true vars gen_modes (h_init cond s0) ops = Some h ->
+    sched_run cond sched_init ops = Some sc ->
+    exists ps, v_run cond cond_eqb simp is_true vars [empty_path cond s0] ops = Some ps /\
+      forall s i, nth_error (sc_current sc) s = Some i ->
+        exists hp p, nth_error (o_paths h) i = Some hp /\ nth_error ps i = Some p /\ hp_solver hp = s /\
+                     s_assertions cond (nth s (o_solvers h) []) = solver p.
+Proof. exact solver_mirrors_running_path_gen. Qed.
+Print Assumptions C11_solver_mirrors_running_path.
+
+(* non-vacuity of the object level: two transactions started from the same (sliced) state;
+   what the first one appends is not in the query of the second one -- and it WOULD be
+   there if extend_path handed over `conditions` without copying it (the model tells the
+   modes apart, `separate` is not a decoration) *)
+Example C11_objects_nonvacuous :
+  let vars := fun c : Z => [c] in
+  let prog := [HAppend 0 1 false; HSlice 0 [1]; HExtend 0 []; HAppend 1 2 false; HBranch 1 3;
+               HAppend 1 4 false; HExtend 0 []; HActivate 2; HAppend 3 5 false] in
+  let ids := fun m => match h_run Z Z.eqb (fun c => c) (fun c => c =? 0) vars m (h_init Z []) prog with
+                      | Some h => map (fun i => option_map snd (h_to_smt2 Z (fun c => 100 + c) h i true)) [0; 1; 2; 3]%nat
+                      | None => []
+                      end in
+  ids gen_modes = [Some [101]; Some [101; 102; 104]; Some [101; 102; 103]; Some [101; 105]] /\
+  map (accumulated Z) (lineages Z prog) = [[1]; [1; 2; 4]; [1; 2; 3]; [1; 5]] /\
+  ids (mkModes MShallow MShallow MDeep MAlias MShallow MDeep)
+    = [Some [101; 102; 104; 105]; Some [101; 102; 104; 105]; Some [101; 102; 103]; Some [101; 102; 104; 105]] /\
+  separate (mkModes MShallow MShallow MDeep MAlias MShallow MDeep) = false /\
+  (* the program follows the exploration discipline; the three solver objects hold: *)
+  option_map sc_current (sched_run Z sched_init prog) = Some [0; 2; 3]%nat /\
+  match h_run Z Z.eqb (fun c => c) (fun c => c =? 0) vars gen_modes (h_init Z []) prog with
+  | Some h => map (s_assertions Z) (o_solvers h) = [[1]; [1; 2; 3]; [1; 5]]
+  | None => False
+  end.
+Proof. vm_compute. repeat split; reflexivity. Qed.
 
 (* non-vacuity: the rules really rewrite the 264-bit remainder abstraction, the result
    evaluates 7 mod 0 to 0 and 0x..ff sdiv 2 to 0 (-1 / 2), an exp declaration survives;
